@@ -63,7 +63,7 @@ CLASSES = ["easy", "faulty", "constrained", "devices", "tiny", "keys",
 
 
 def plan(tier):
-    n = 168 if tier == "quick" else 3500
+    n = 1200 if tier == "quick" else 100000
     return [(c, n) for c in CLASSES]
 
 
